@@ -8,10 +8,13 @@ SpillDisjoint.
    virtual-register run, that the least fixpoint is path liveness, that weakened rules break the theorem
    (anti-vacuity) and that the MOVE exemption is needed.
 2. Packages (generated pool seeds 701..760, spill-heavy programs in pools/regalloc/, e2e corpus programs listed
-   in pools/regalloc/corpus.txt) are built in debug and release by vh-exec with hook H4 tracing on: one RegAlloc
-   event per allocated function (post-coalescing ops + assignment), one Spill event per spill round.
-3. The driver renames registers to small integers (mechanical), dedupes identical functions and shards them;
-   Trace_RegAlloc.tla recomputes liveness from the recorded def/use/successor sets and decides every function.
+   in pools/regalloc/corpus.txt) are built in debug and release by vh-exec with hook H4 tracing on: per allocated
+   function one RegAlloc event (post-coalescing ops + assignment), one Coalesce event per colouring attempt
+   (pre-coalescing ops + coalescing map), one Spill event per spill round.
+3. The driver renames registers to small integers (mechanical), composes the coalescing map with the assignment,
+   dedupes identical functions and shards them; Trace_RegAlloc.tla recomputes liveness from the recorded
+   def/use/successor sets and decides every function twice: on the ops before coalescing (the coalesced MOVEs are
+   there, destination and source in one register: the MOVE exemption decides) and on the ops after it.
 """
 import glob, hashlib, json, os, re, time
 from concurrent.futures import ThreadPoolExecutor
@@ -107,26 +110,49 @@ def _phys(p):
     return int(m.group(1)) if m else -2      # -2: not a register of the pool at all (InPool rejects it)
 
 
+def _rename(names):
+    order = sorted(names, key=_vkey)
+    return order, {n: i + 1 for i, n in enumerate(order)}
+
+
+def _ops(evops, idx):
+    return [{"d": [idx[x] for x in o["d"]], "u": [idx[x] for x in o["u"]], "s": o["s"],
+             "mv": idx[o["mv"]] if o["mv"] is not None else 0} for o in evops]
+
+
+def _names_of(evops):
+    names = set()
+    for o in evops:
+        names.update(o["d"]); names.update(o["u"])
+        if o["mv"] is not None:
+            names.add(o["mv"])
+    return names
+
+
+def _rec(body, order, src, k, stage):
+    h = hashlib.sha256(json.dumps(body, separators=(",", ":"), sort_keys=True).encode()).hexdigest()[:16]
+    return {"h": h, "body": body, "names": order, "src": dict(src, fn=k, stage=stage), "nops": len(body["ops"]),
+            "nspill": sum(len(s["slots"]) for s in body["spills"]), "rounds": len(body["spills"])}
+
+
 def to_records(events, src):
-    """RegAlloc events -> trace records; the Spill events since the previous RegAlloc event are the spill rounds
-    of this function.  Register names -> 1..V in numeric order, "$rN" -> N, null -> -1, no MOVE -> 0."""
-    recs, pend, k = [], [], 0
+    """Trace events of one build -> trace records, two per allocated function:
+      stage "post": the RegAlloc event (ops after MOVE coalescing, final assignment) with the spill rounds (the
+                    Spill events since the previous RegAlloc event);
+      stage "pre":  the ops the successful colouring attempt started from (the last Coalesce event before the
+                    RegAlloc event) with the composed assignment  v -> assign[map(v)]  (map = coalescing map).
+    Mechanical renaming only: register names -> 1..V in numeric order, "$rN" -> N, null/absent -> -1, no MOVE -> 0."""
+    recs, pend, coal, k = [], [], None, 0
     for e in events:
         if e["ev"] == "Spill":
             pend.append(e)
             continue
+        if e["ev"] == "Coalesce":
+            coal = e
+            continue
         if e["ev"] != "RegAlloc":
             continue
-        names = set(e["assign"].keys())
-        for o in e["ops"]:
-            names.update(o["d"]); names.update(o["u"])
-            if o["mv"] is not None:
-                names.add(o["mv"])
-        order = sorted(names, key=_vkey)
-        idx = {n: i + 1 for i, n in enumerate(order)}
-        ops = [{"d": [idx[x] for x in o["d"]], "u": [idx[x] for x in o["u"]], "s": o["s"],
-                "mv": idx[o["mv"]] if o["mv"] is not None else 0} for o in e["ops"]]
-        asg = [_phys(e["assign"].get(n)) for n in order]
+        order, idx = _rename(set(e["assign"].keys()) | _names_of(e["ops"]))
         spills, key = [], 0
         for sp in pend:
             sl = []
@@ -134,11 +160,17 @@ def to_records(events, src):
                 key += 1
                 sl.append([key, off])
             spills.append({"locals": sp["locals"], "slots": sl})
-        pend = []
-        body = {"ops": ops, "asg": asg, "spills": spills}
-        h = hashlib.sha256(json.dumps(body, separators=(",", ":"), sort_keys=True).encode()).hexdigest()[:16]
-        recs.append({"h": h, "body": body, "names": order, "src": dict(src, fn=k), "nops": len(ops),
-                     "nspill": sum(len(s["slots"]) for s in spills), "rounds": len(spills)})
+        body = {"ops": _ops(e["ops"], idx), "asg": [_phys(e["assign"].get(n)) for n in order], "spills": spills}
+        recs.append(_rec(body, order, src, k, "post"))
+        if coal is not None:
+            m = coal["map"]
+            order0, idx0 = _rename(_names_of(coal["ops"]) | set(m.keys()))
+            body0 = {"ops": _ops(coal["ops"], idx0), "asg": [_phys(e["assign"].get(m.get(n, n))) for n in order0],
+                     "spills": []}
+            r0 = _rec(body0, order0, src, k, "pre")
+            r0["coalesced"] = len(m)
+            recs.append(r0)
+        pend, coal = [], None
         k += 1
     return recs
 
@@ -278,14 +310,23 @@ def self_tests(ctx, recs):
     # the MOVE exemption is exercised by real traces: without it the recorded allocation of move_kept
     # (asm-level optimizations off) must be rejected
     mk = [r for r in recs if r["src"]["pkg"] == "move_kept" and r["src"].get("noasm") and r["src"]["profile"] == "release"]
-    if mk:
-        tests.append(("noexempt", sorted(mk, key=lambda r: r["src"]["fn"]), "Trace_RegAlloc_noexempt", "NoClobber"))
+    mk_post = sorted([r for r in mk if r["src"]["stage"] == "post"], key=lambda r: r["src"]["fn"])
+    if mk_post:
+        tests.append(("noexempt_post", mk_post, "Trace_RegAlloc_noexempt", "NoClobber"))
+    # ... and on default builds by the MOVEs that coalescing removed (pre-coalescing ops, composed assignment)
+    def same_reg_moves(r):
+        a = r["body"]["asg"]
+        return sum(1 for o in r["body"]["ops"] if o["mv"] and o["d"] and a[o["d"][0] - 1] == a[o["mv"] - 1])
+    pre = [r for r in recs if r["src"]["stage"] == "pre" and not r["src"].get("noasm") and r["nops"] <= 2500 and same_reg_moves(r)]
+    pre = sorted(pre, key=lambda r: (-same_reg_moves(r), r["nops"], r["h"]))[:12]
+    if pre:
+        tests.append(("noexempt_pre", pre, "Trace_RegAlloc_noexempt", "NoClobber"))
 
     def one(t):
         tag, rs, cfg, want = t
         _v, rej, _t = _validate_shard(ctx, 0, rs, cfg=cfg, tag="self" + tag)
         return tag, rej, want
-    with ThreadPoolExecutor(max_workers=3) as ex:
+    with ThreadPoolExecutor(max_workers=4) as ex:
         outs = list(ex.map(one, tests))
     for tag, rej, want in outs:
         if not rej or rej[0][1] != want:
@@ -357,7 +398,9 @@ def run(ctx):
         b["events"] = None
     if leftover:
         raise ToolError("%d builds ended with Spill events not followed by an allocation" % leftover)
-    total_fns = len(allrecs)
+    total_fns = sum(1 for r in allrecs if r["src"]["stage"] == "post")
+    if any(r["src"]["stage"] == "post" for r in allrecs) and not any(r["src"]["stage"] == "pre" for r in allrecs):
+        raise ToolError("no Coalesce events in the traces: vh-exec was built without the H4 Coalesce hook")
     uniq = {}
     for r in allrecs:
         if r["nops"] == 0:
@@ -373,9 +416,9 @@ def run(ctx):
     for rec, verdict, wit in rej:
         d = describe(rec, verdict, wit)
         s = rec["src"]
-        ctx.report("fn:%s:%s%s:%d:%s" % (s["pkg"], s["profile"], ":noasm" if s.get("noasm") else "", s["fn"], verdict),
-                   "register allocation of function #%d of %s (%s%s) violates %s: %s" % (
-                       s["fn"], s["pkg"], s["profile"], ", asm optimizations off" if s.get("noasm") else "", verdict,
+        ctx.report("fn:%s:%s%s:%d:%s:%s" % (s["pkg"], s["profile"], ":noasm" if s.get("noasm") else "", s["fn"], s["stage"], verdict),
+                   "register allocation of function #%d of %s (%s%s; ops %s coalescing) violates %s: %s" % (
+                       s["fn"], s["pkg"], s["profile"], ", asm optimizations off" if s.get("noasm") else "", s["stage"], verdict,
                        json.dumps({k: v for k, v in d.items() if k not in ("source",)})[:400]),
                    {"diagnosis": d, "names": rec["names"], "record": rec["body"]})
 
@@ -385,6 +428,12 @@ def run(ctx):
 
     def moves(r):
         return sum(1 for o in r["body"]["ops"] if o["mv"] and o["d"])
+
+    def same_reg_moves(r):
+        a = r["body"]["asg"]
+        return sum(1 for o in r["body"]["ops"] if o["mv"] and o["d"] and a[o["d"][0] - 1] == a[o["mv"] - 1])
+    pre = [r for r in validated if r["src"]["stage"] == "pre"]
+    post = [r for r in validated if r["src"]["stage"] == "post"]
     spilled = [r for r in validated if r["rounds"] > 0]
     sample = sorted(validated, key=lambda r: (-r["nspill"], -r["nops"]))[:3] + sorted(validated, key=lambda r: r["nops"])[-2:]
     return ctx.finish("model_checking", {
@@ -394,7 +443,11 @@ def run(ctx):
         "largest_function_ops": max([r["nops"] for r in validated] or [0]),
         "functions_with_spilling": len(spilled), "spill_rounds": sum(r["rounds"] for r in spilled),
         "spill_slots": sum(r["nspill"] for r in spilled),
-        "register_to_register_moves_surviving_coalescing": sum(moves(r) for r in validated),
+        "functions_validated_post_coalescing": len(post), "functions_validated_pre_coalescing": len(pre),
+        "register_to_register_moves_before_coalescing": sum(moves(r) for r in pre),
+        "of_which_destination_and_source_share_a_register": sum(same_reg_moves(r) for r in pre),
+        "registers_merged_by_coalescing": sum(r.get("coalesced", 0) for r in pre),
+        "register_to_register_moves_surviving_coalescing": sum(moves(r) for r in post),
         "max_physical_registers_in_one_function": max([len(set(r["body"]["asg"])) for r in validated] or [0]),
         "functions_not_validated_too_large": [{"src": r["src"], "nops": r["nops"]} for r in too_big],
         "functions_not_validated_tlc_timeout": [{"src": r["src"], "nops": r["nops"]} for r in timed_out],
